@@ -3,12 +3,16 @@
 use crate::monitor::Ctx;
 
 pub mod c01;
+pub mod c02;
+pub mod c10;
 pub mod c18;
 pub mod c20;
 
 pub fn registry() -> Vec<(&'static str, fn(&mut Ctx))> {
     vec![
         ("C01", c01::run as fn(&mut Ctx)),
+        ("C02", c02::run),
+        ("C10", c10::run),
         ("C18", c18::run),
         ("C20", c20::run),
     ]
